@@ -25,9 +25,12 @@ returned, its array equals the valid file's, which elements are attached (netCDF
 construct type; bounds as separate elements), dataset_compliance() non-empty / descriptors open on
 the file after the call (/proc/self/fd).  Message texts are never compared.
 
-The model line asks for the model of the reader as it is at /repo HEAD (`old=0` = `patched`: all the
-C13 repairs and 7931fa5 are merged); `agree` is equality with it.  `old=2` (diagnostics) prints
-`patched || HEAD before 7931fa5 || coded`.
+The model line (`old=2`) carries the model of the reader at /repo HEAD with the proposed, not yet
+merged patches (`patched`: fixes/C13-cell-method-interval-attribute, -grid-mapping-coordinate-not-used,
+-node-coordinates-report-with-coordinate, -auxiliary-coordinate-cache-per-geometry) and the model of
+HEAD as it is (`head`: the eight earlier C13 repairs and 7931fa5 are merged); `agree` accepts either,
+so that the check is quiet on the repository with and without the proposed patches; the oracle
+decides.  The models of the code before the merged repairs (`old=3`) are for diagnostics only.
 """
 import atexit
 import json
@@ -35,6 +38,7 @@ import os
 import shutil
 import tempfile
 import urllib.parse
+import zlib
 
 import numpy as np
 
@@ -57,6 +61,15 @@ REQUIRED = [
     "C13_rejected_coordinate_not_referenced",
     "C13_unreferenced_field_returned",
     "C13_withheld_fields_are_referenced",
+    "C13_report_only_grows",
+    "C13_bounds_messages_filed_under_coordinate",
+    "C13_broken_coordinate_reported",
+    "C13_broken_ancillary_reported",
+    "C13_unused_grid_mapping_coordinate_reported",
+    "C13_head_grid_mapping_coordinate_silent",
+    "C13_head_shared_coordinate_caches",
+    "C13_cell_method_messages_quote_attribute",
+    "C13_head_cell_method_interval_without_attribute",
 ]
 BUDGET = {"quick": 5000, "thorough": 200000}
 TIME_LIMIT = {"quick": 170, "thorough": 1400}
@@ -72,12 +85,15 @@ RULE = (
     "(not the valid file, not a tokeniser drift case); distinct = distinct (file digest, site, fault)"
 )
 ASSUMPTIONS = [
-    "UGRID-free, subsampling-free datasets read with the netCDF4 backend, CF-1.11; the model covers group-free datasets, datasets with one group are judged by the oracle only",
+    "UGRID-free, subsampling-free datasets, CF-1.11, read with the default backend (netCDF4) and, for about one file in seven of the hand-written stream, with netcdf_backend='h5netcdf' (same model output); the model covers group-free datasets read as fields; datasets with one group, and the domain variables of a broken dataset read with domain=True (must not raise), are judged by the oracle only",
     "'valid' is judged on the abstract description, not by cfdm: the reference for 'unaffected constructs intact' is cfdm's own read of the valid file",
     "a fault kind is applied only where it breaks a reference in the property's sense: 'foreign' not for container variables without dimension constraint (grid mapping variable, part_node_count, bounds of a 0-d coordinate), not for dimension tokens and mapping keys; 'removed' is required to be reported only when it leaves a malformed mapping string; 'removed' of a compress token is skipped (the list values no longer fit)",
     "compound elements may be left out as a whole: all formula terms of one coordinate, one grid mapping with its coordinate list, everything derived from one geometry container; independent list entries (coordinates, ancillary_variables, cell_measures pairs, grid mappings) may lose only the broken entry",
     "no term variable of a formula_terms attribute is itself a coordinate of the data variable; no grid mapping lists a parametric vertical coordinate (reader state shared between fields, C09's subject)",
 ]
+
+# malformed cell_methods that the parser accepts without a word (open finding, no small patch)
+SILENT_CM = ("closeonly", "noaxis", "nomethod")
 
 _cfdm = None
 
@@ -128,7 +144,7 @@ def enc_attrs(d, keys):
     return ";".join(items) if items else "-"
 
 
-def line_for(F, dvs, old="0"):
+def line_for(F, dvs, old="2"):
     vs = []
     for v in F["vars"]:
         k = {"f": "n", "i": "n", "s": "s", "c": "c"}[v["kind"]]
@@ -252,6 +268,18 @@ def elems_of(f, has_cm):
     return sorted(out)
 
 
+def report_entries(f):
+    """The entries of dataset_compliance(): sorted set of (ncvar, key of the attribute dict, reason)."""
+    out = set()
+    for rec in f.dataset_compliance().values():
+        for ncvar, entries in rec.get("non-compliance", {}).items():
+            for d in entries:
+                a = d.get("attribute")
+                key = "-" if not a else "+".join(str(base(k)) for k in a)
+                out.add((str(base(ncvar)), key, str(d.get("reason"))))
+    return sorted(out)
+
+
 def array_sig(f):
     if not f.has_data():
         return None
@@ -269,16 +297,18 @@ def base(name):
     return name.split("/")[-1] if isinstance(name, str) else name
 
 
-def observe(F, dvs, group=None):
+def observe(F, dvs, group=None, backend=None):
     """Write F, read it with cfdm; dict(status, closed, fields={dv: dict(elems, report, array)}).
-    Variable names are compared without their group path."""
+    Variable names are compared without their group path.  `backend`: netcdf_backend of cfdm.read
+    (None = the default, netCDF4 first)."""
     path = tmpfile("f")
     G.write_nc(F, path, group=group)
     before = fd_targets()
+    kw = {"netcdf_backend": backend} if backend else {}
     obs = dict(status="ok", fields={})
     fs = None
     try:
-        fs = cfdm().read(path, warnings=False)
+        fs = cfdm().read(path, warnings=False, **kw)
     except Exception as e:
         obs["status"] = "raised:" + fw.exc_enum(e)
     after = fd_targets()
@@ -294,7 +324,7 @@ def observe(F, dvs, group=None):
                 continue
             v = G.get_var(F, dv)
             rec = dict(elems=elems_of(f, v is not None and "cell_methods" in v["attrs"]),
-                       report=bool(f.dataset_compliance()))
+                       report=bool(f.dataset_compliance()), entries=report_entries(f))
             try:
                 rec["array"] = array_sig(f)
             except Exception as e:
@@ -305,7 +335,7 @@ def observe(F, dvs, group=None):
         # the domain variables, read as domains
         obs["domains"] = {}
         try:
-            for d in cfdm().read(path, domain=True, warnings=False):
+            for d in cfdm().read(path, domain=True, warnings=False, **kw):
                 obs["domains"][base(d.nc_get_variable(None))] = elems_of(d, False)
         except Exception as e:
             obs["domains"] = "raised:" + fw.exc_enum(e)
@@ -334,19 +364,22 @@ def canon(obs, dvs):
         if r is None:
             parts.append(f"{dv}=absent")
         else:
-            parts.append(f"{dv}=[{','.join(r['elems'])}]:{'R' if r['report'] else 'N'}")
+            rep = "N"
+            if r["report"]:
+                rep = "R{" + ";".join(sorted("|".join(x).replace(" ", "_") for x in r["entries"])) + "}"
+            parts.append(f"{dv}=[{','.join(r['elems'])}]:{rep}")
     return f"ok closed={c} " + " ".join(parts)
 
 
 _valid_cache = {}
 
 
-def valid_obs(F, dvs, group=None):
-    k = G.digest(F) + str(group)
+def valid_obs(F, dvs, group=None, backend=None):
+    k = G.digest(F) + str(group) + str(backend)
     if k not in _valid_cache:
         if len(_valid_cache) > 8:
             _valid_cache.clear()
-        _valid_cache[k] = observe(F, dvs, group)
+        _valid_cache[k] = observe(F, dvs, group, backend)
     return _valid_cache[k]
 
 
@@ -364,7 +397,9 @@ def applicable(F, site, kind):
     v, attr, i, role = site
     if role == "key":
         return False                       # term / measure names are not references
-    if kind in ("foreign-shared", "foreign-data"):
+    if kind == "foreign-shared":
+        return role == "var" and attr in G.SHARED_ATTRS
+    if kind == "foreign-data":
         return role == "var" and attr in G.PARENT_ATTRS
     if kind == "foreign":
         if role != "var":
@@ -382,37 +417,43 @@ def applicable(F, site, kind):
     return True
 
 
-def make_case(stream, F, dvs, fault, site, template, group=None):
+def make_case(stream, F, dvs, fault, site, template, group=None, backend=None):
     p = dict(file=F, dvs=dvs, fault=fault, site=list(site) if site else None, template=template)
     if group:
         p["group"] = group
+    if backend:
+        p["backend"] = backend
     B = broken(p)
     if B is None:
         return None
     attr = site[1] if site else "-"
-    key = f"{stream}|{G.digest(F)}|{site}|{fault}"
-    tags = [f"tpl:{template}", f"attr:{attr}", f"fault:{fault}"]
+    key = f"{stream}|{G.digest(F)}|{site}|{fault}|{backend or ''}"
+    tags = [f"tpl:{template}", f"attr:{attr}", f"fault:{fault}", f"backend:{backend or 'default'}"]
     # grouped files go through the flattener, which the model does not cover: oracle only
     return Case(stream, p, line=None if group else line_for(B, dvs), key=key, nontrivial=fault != "none", tags=tags)
 
 
-def cases_of_file(stream, F, template, group=None):
+def cases_of_file(stream, F, template, group=None, backend=None):
     dvs = data_vars(F)
     if not dvs:
         return
-    c = make_case(stream if group else "C13.valid", F, dvs, "none", None, template, group)
+    c = make_case(stream if group else "C13.valid", F, dvs, "none", None, template, group, backend)
     if c:
         yield c
     for site in G.sites(F):
         for kind in G.KINDS:
             if not applicable(F, site, kind):
                 continue
-            c = make_case(stream, F, dvs, kind, site, template, group)
+            c = make_case(stream, F, dvs, kind, site, template, group, backend)
             if c:
                 yield c
-    if stream == "C13.fault":
+    if stream == "C13.fault" or group:
         for v, a, m in G.mal_sites(F):
-            c = make_case("C13.mal", F, dvs, "mal", (v, a, m, "mal"), template)
+            if a == "cell_methods" and m in SILENT_CM and zlib.crc32(f"{G.digest(F)}|{v}|{m}".encode()) % 4:
+                continue      # these always end in the open finding cell_methods:malformed:unreported: keep 1 in 4
+            if a == "cell_methods" and m == "badinterval" and zlib.crc32(f"{G.digest(F)}|{v}|{m}".encode()) % 3:
+                continue      # always ends in cell_methods:malformed-badinterval:misreported: keep 1 in 3
+            c = make_case(stream if group else "C13.mal", F, dvs, "mal", (v, a, m, "mal"), template, group, backend)
             if c:
                 yield c
 
@@ -505,7 +546,9 @@ def gen(rng, tier, n):
         else:
             template, F = G.gen_file(rng)
             stream = "C13.fault"
-        for c in cases_of_file(stream, F, template):
+        # the same reader code behind the other backend (the model does not depend on it)
+        backend = "h5netcdf" if stream == "C13.fault" and rng.random() < 0.15 else None
+        for c in cases_of_file(stream, F, template, backend=backend):
             yield c
             made += 1
 
@@ -545,7 +588,7 @@ def impl(c):
     if c.stream == "C13.tok":
         return impl_tok(p)
     B = broken(p)
-    obs = observe(B, p["dvs"], p.get("group"))
+    obs = observe(B, p["dvs"], p.get("group"), p.get("backend"))
     c.extra = obs
     return canon(obs, p["dvs"])
 
@@ -555,8 +598,8 @@ def agree(c):
         return True
     if c.stream == "C13.tok":
         return c.impl_out == c.model_out
-    # the model of the reader as it is at /repo HEAD (every C13 patch is merged): first (or only) part
-    return c.impl_out == c.model_out.split("||")[0].strip()
+    # the model of the reader at /repo HEAD with, or without, the proposed (not merged) patches
+    return c.impl_out in [m.strip() for m in c.model_out.split("||")[:2]]
 
 
 # ------------------------------------------------------------------ oracle
@@ -653,6 +696,33 @@ def lose_sets(F, p, V):
     return out
 
 
+def names_problem(F, p, entries):
+    """Is one of the entries (ncvar, attribute key, reason) of a field's report about the broken
+    reference?  It is if it quotes the attribute that holds the reference (`variable:attribute`, or
+    the global attribute) or if it is filed under the name that the attribute now holds instead of
+    the valid one.  (Independent of which reason the reader gives.)"""
+    if entries is None:
+        return True                       # observation without entries (old replay)
+    v, attr, i, role = p["site"]
+    key = attr if v is None else f"{v}:{attr}"
+    names = set()
+    if p["fault"] == "missing":
+        names = {G.MISSING}
+    elif p["fault"] == "foreign":
+        names = {G.FOREIGN, G.FOREIGN_C}
+    elif p["fault"] in ("foreign-shared", "foreign-data"):
+        names = {G.replacement(F, tuple(p["site"]), p["fault"], p["dvs"])}
+    if attr == "external_variables" and p["fault"] != "removed":
+        # the token no longer declares the variable external: that variable is what cannot be mapped
+        names.add(G.tokens(F["globals"][attr])[i])
+    for ncvar, akey, reason in entries:
+        if ncvar.startswith("REF_NOT_FOUND_"):
+            ncvar = ncvar[len("REF_NOT_FOUND_"):]       # the flattener's placeholder for an unresolved name
+        if key in akey.split("+") or ncvar in names:
+            return True
+    return False
+
+
 def oracle(c):
     p = c.payload
     if c.stream == "C13.tok":
@@ -660,7 +730,7 @@ def oracle(c):
     obs = c.extra
     if not isinstance(obs, dict):
         return "raised-harness: no observation"
-    if p["fault"] != "none" and valid_obs(p["file"], p["dvs"], p.get("group"))["status"] != "ok":
+    if p["fault"] != "none" and valid_obs(p["file"], p["dvs"], p.get("group"), p.get("backend"))["status"] != "ok":
         return None                 # cfdm cannot read the valid file: nothing to compare with
     if obs["status"] != "ok":
         return f"{obs['status'].replace(':', '-')}: reading the broken dataset raised" + ("" if obs["closed"] else " and left the file open")
@@ -687,12 +757,15 @@ def oracle(c):
         return None
     F = p["file"]
     dvs = p["dvs"]
-    Vobs = valid_obs(F, dvs, p.get("group"))
+    Vobs = valid_obs(F, dvs, p.get("group"), p.get("backend"))
     if Vobs["status"] != "ok":
         return None                 # cfdm cannot read the valid file: nothing to compare with
     V = Vobs["fields"]
     L = lose_sets(F, p, V)
     problems = []
+    if isinstance(obs.get("domains"), str) and not isinstance(Vobs.get("domains"), str):
+        # the domain variables of the broken dataset, read with domain=True
+        problems.append(f"domain-{obs['domains'].replace(':', '-')}: reading the broken dataset with domain=True raised")
     for dv in dvs:
         ref = V.get(dv)
         if ref is None:
@@ -711,17 +784,26 @@ def oracle(c):
                 code = "lost-unaffected" if own else "lost-in-other-field"
                 problems.append(f"{code}: {dv} lost {lost}")
             bad = [e for e in got["elems"] if e.split(":")[-1] in (G.MISSING, G.FOREIGN, G.FOREIGN_C) and p["fault"] != "removed"]
-            if p["fault"] in ("foreign-shared", "foreign-data") and dv == p["site"][0]:
+            if p["fault"] in ("foreign-shared", "foreign-data"):
                 r = G.replacement(F, tuple(p["site"]), p["fault"], dvs)
-                bad += [e for e in got["elems"] if e in (f"aux:{r}", f"dim:{r}", f"anc:{r}", f"msr:{r}")]
+                v0, a0 = p["site"][0], p["site"][1]
+                if a0 in G.PARENT_ATTRS and dv == v0:
+                    bad += [e for e in got["elems"] if e in (f"aux:{r}", f"dim:{r}", f"anc:{r}", f"msr:{r}")]
+                elif a0 in ("bounds", "climatology", "nodes"):
+                    bad += [e for e in got["elems"] if e == f"bnd:{v0}:{r}"]
             if bad:
                 problems.append(f"attached-unmappable: {dv} has {bad}")
         if need_report and not got["report"]:
             code = "unreported" if dv == p["site"][0] or lose == "ANY" else "unreported-in-sharing-field"
             problems.append(f"{code}: dataset_compliance() of {dv} is empty")
+        elif need_report and not names_problem(F, p, got.get("entries")):
+            # the report is not empty, but nothing in it is about this reference
+            code = "misreported" if dv == p["site"][0] or lose == "ANY" else "misreported-in-sharing-field"
+            problems.append(f"{code}: no entry of dataset_compliance() of {dv} names the broken reference: "
+                            f"{[list(e) for e in got.get('entries') or []][:4]}")
     if problems:
-        order = ["field-missing", "data-changed", "lost-unaffected", "lost-in-other-field", "attached-unmappable",
-                 "unreported", "unreported-in-sharing-field"]
+        order = [p_.split(":")[0] for p_ in problems if p_.startswith("domain-")] + ["field-missing", "data-changed", "lost-unaffected", "lost-in-other-field", "attached-unmappable",
+                 "unreported", "unreported-in-sharing-field", "misreported", "misreported-in-sharing-field"]
         problems.sort(key=lambda s: order.index(s.split(":")[0]))
         return "; ".join(problems)
     return None
@@ -743,9 +825,12 @@ def classify(c):
     if p["fault"] == "none":
         return f"valid-file:{code}"
     site = p["site"]
-    what = site[2] if p["fault"] == "mal" else p["fault"]
+    what = p["fault"]
     if p["fault"] == "mal":
+        # which malformation matters for what is (not) said about it
         what = "malformed"
+        if code.startswith("misreported") and site[2] == "badinterval" and "Cell method interval" in c.oracle_fail:
+            what = "malformed-badinterval"      # reported, but without quoting the attribute
     return f"{site[1]}:{what}:{code}"
 
 
